@@ -13,27 +13,41 @@ From P9V Require Import Client.Pool Client.PoolProofs.
 Import ListNotations.
 Open Scope N_scope.
 
+(** how a binding request ended *)
+Inductive bind_outcome :=
+| BOk                          (* answered with its R-message: the fid is bound *)
+| BRefused                     (* answered Rlerror: the fid is not bound *)
+| BLost (server_bound : bool). (* failed otherwise (frame the client cannot accept, send/receive error):
+                                  the server may or may not have carried the request out *)
+
 Inductive fev :=
-| FBind (ok : bool)              (* binding request: answered with its R-message / refused *)
+| FBind (o : bind_outcome)
 | FClunk (f : N) (ok : bool).    (* Close/Remove of the File with fid f: confirmed / failed *)
 
-(** returns, per FBind, the fid handed to the new File and whether the server had it bound *)
-Fixpoint fid_run (p : pool) (out bound : list N) (evs : list fev) : list (option N * bool) :=
+(** [refused_only]: releaseFID puts the fid back only after Rlerror (commit 28ed22f; read from the
+    source: ClientGen.release_fid_policy = "refused"); otherwise after any failure.
+    Returns, per FBind, the fid handed out and whether the server had it bound at that moment. *)
+Fixpoint fid_run (refused_only : bool) (p : pool) (out bound : list N) (evs : list fev) : list (option N * bool) :=
   match evs with
   | [] => []
-  | FBind ok :: r =>
+  | FBind o :: r =>
       match pool_get p with
-      | (None, p') => (None, false) :: fid_run p' out bound r                 (* ErrOutOfFIDs *)
+      | (None, p') => (None, false) :: fid_run refused_only p' out bound r                 (* ErrOutOfFIDs *)
       | (Some f, p') =>
           (Some f, mem f bound) ::
-          (if ok then fid_run p' (f :: out) (f :: bound) r
-           else fid_run (pool_put p' f) out bound r)
+          match o with
+          | BOk => fid_run refused_only p' (f :: out) (f :: bound) r
+          | BRefused => fid_run refused_only (pool_put p' f) out bound r
+          | BLost sb =>
+              if refused_only then fid_run refused_only p' (f :: out) (if sb then f :: bound else bound) r   (* leaked *)
+              else fid_run refused_only (pool_put p' f) out (if sb then f :: bound else bound) r
+          end
       end
   | FClunk f ok :: r =>
       if mem f out then
-        if ok then fid_run (pool_put p f) (remove1 f out) (remove1 f bound) r
-        else fid_run p out bound r                                             (* fid thrown away *)
-      else fid_run p out bound r                                               (* not a live File: EBADF locally *)
+        if ok then fid_run refused_only (pool_put p f) (remove1 f out) (remove1 f bound) r
+        else fid_run refused_only p out bound r                                             (* fid thrown away *)
+      else fid_run refused_only p out bound r                                               (* not a live File: EBADF locally *)
   end.
 
 Lemma remove1_In v x l : In x (remove1 v l) -> In x l.
@@ -57,22 +71,26 @@ Qed.
 Theorem fid_fresh start0 : forall evs p out bound,
   pinv start0 p out -> NoDup bound -> (forall f, In f bound -> In f out) ->
   Forall (fun x => snd x = false /\ match fst x with Some f => start0 <= f < p_limit p | None => True end)
-         (fid_run p out bound evs).
+         (fid_run true p out bound evs).
 Proof.
-  induction evs as [|[ok|f ok] r IH]; intros p out bound Hinv Hnd Hsub; cbn; [constructor|..].
+  induction evs as [|[o|f ok] r IH]; intros p out bound Hinv Hnd Hsub; cbn; [constructor|..].
   - destruct (pool_get p) as [[f|] p'] eqn:Hg.
     + destruct (get_some _ _ _ _ _ Hinv Hg) as (Hinv' & Hnot & Hrange).
       assert (Hl : p_limit p' = p_limit p).
       { unfold pool_get in Hg. destruct (p_cache p); [destruct (p_start p =? p_limit p)|]; inversion Hg; reflexivity. }
+      assert (Hnb : ~ In f bound) by auto.
       constructor.
       * cbn. split; auto. destruct (mem f bound) eqn:E; auto. apply mem_In in E. exfalso. auto.
-      * destruct ok.
+      * destruct o as [| |sb].
         -- rewrite <- Hl. apply IH; auto.
            ++ constructor; auto.
            ++ intros x [->|Hx]; [now left|right; auto].
         -- assert (Hput : pinv start0 (pool_put p' f) out).
            { pose proof (put_ok _ _ _ f Hinv' ltac:(now left)) as H. cbn in H. now rewrite N.eqb_refl in H. }
            replace (p_limit p) with (p_limit (pool_put p' f)) by (cbn; auto). apply IH; auto.
+        -- rewrite <- Hl. apply IH; auto.
+           ++ destruct sb; auto. constructor; auto.
+           ++ intros x Hx. destruct sb; [destruct Hx as [->|Hx]|]; [now left|right; auto|right; auto].
     + destruct (get_none _ _ _ _ Hinv Hg) as [-> _]. constructor; [cbn; auto|]. apply IH; auto.
   - destruct (mem f out) eqn:E; [|apply IH; auto]. apply mem_In in E. destruct ok; [|apply IH; auto].
     replace (p_limit p) with (p_limit (pool_put p f)) by (cbn; auto). apply IH.
@@ -83,3 +101,8 @@ Proof.
       * exfalso. eapply remove1_NoDup_notin; eauto.
       * apply remove1_In_ne; auto. apply Hsub. eapply remove1_In; eauto.
 Qed.
+
+(** with the old policy (Put after any failure) a fid the server has bound is handed out again *)
+Lemma fid_reuse_refuted :
+  fid_run false (mkpool [] 1 4294967295) [] [] [FBind (BLost true); FBind BOk] = [(Some 1, false); (Some 1, true)].
+Proof. vm_compute. reflexivity. Qed.
